@@ -29,6 +29,9 @@ var c15fails = []c15fail{
 	{"syntax-break", "<% break %>", "parse"},
 	{"syntax-if", "<% if (true { %>x<% } %>", "parse"},
 	{"syntax-hash", "<%= {a 1} %>", "parse"},
+	// an illegal number literal that ends its line (the scanner is already on the next line)
+	{"syntax-illegal-number-eol", "<%= 1.2.3\n %>", "parse"},
+	{"syntax-illegal-dot-number-eol", "<% let q = .5.\n %>", "parse"},
 }
 
 // filler that precedes the failing tag: each entry occupies the given number of lines
